@@ -28,6 +28,8 @@ pub struct VammObs {
     pub cum: i128,
     pub oracle: i128,
     pub registered: bool,
+    /// per-block price band (lower, upper), None when the fluctuation limit is 0
+    pub band: Option<(u128, u128)>,
 }
 
 #[derive(Clone, Debug)]
@@ -134,6 +136,7 @@ pub fn observe(w: &World, traders: &[&str]) -> WorldObs {
                 .unwrap_or(-1),
             state,
             registered,
+            band: w.vamm_band(v),
         });
         for t in traders {
             tr.insert((v, t.to_string()), observe_trader(w, v, t));
